@@ -180,6 +180,11 @@ def norm(tree, ord=2):
     """
     from jax.numpy.linalg import norm
 
+    if ord == 0:
+        # The number of non-zero entries does not compose like a p-norm
+        nnz = tree_reduce(operator.add, tree_map(jnp.count_nonzero, tree), 0)
+        return jnp.asarray(nnz, dtype=float)
+
     def el_norm(x):
         if jnp.ndim(x) == 0:
             return jnp.abs(x)
